@@ -31,6 +31,12 @@ COVERAGE TABLE (statement clause / quantifier dimension -> where it is explored 
   templates x options  both templates x every documented option, each written at package level, interface level (flip-all) or mixed
                        within one file (flip-first / flip-rest) -- CodegenCfg.tla, 13,200 configurations, pairwise-covered.
                        POINT: boilerplate-file / mock-build-tags only as on/off (C17 owns their content).
+  variadic forwarding  Variadic family: 34 element types + 21 type-parameter programs = every class of Sig.tla VariadicElemClass (any,
+                       interface{}, alias of any local/foreign, DEFINED empty interface local/foreign, non-empty interfaces, type
+                       parameter under any / comparable / core type / union / named / literal / renamed-empty constraints, basic, named,
+                       alias, ptr, slice, array, map, chan, func, struct, instantiated) x 0/1/2 parameters before the variadic, each
+                       executed with testify + EFFECTIVE unroll-variadic true (written at package or interface level), testify
+                       without it (false / unset) and matryer; guards on class x position.  Quick: placement seeded; thorough: x in/out.
   formatters           goimports / gofmt / noop in the pairwise cover (80% without import repair).
   placements           same package (non-test / _test file), external _test package, sub directory (other name / same name).
                        ABSENT: output dir spelled with `..` or symlinks (aa6ab7f class), two output files with different pkgnames in one
@@ -66,6 +72,33 @@ def slots_for(ctx, tier):
     return f
 
 
+def variadic_pairs(ctx, sp, vpids, tier, prefer):
+    """The Variadic family (CodegenMC.tla) x template x EFFECTIVE unroll-variadic (CodegenCfg.tla predkey.unroll: the value
+    may be written at package level, at interface level, or overridden) x in/out of package.  Every program is executed with
+    testify + unroll-variadic effectively TRUE (the non-default branch, which forwards the variadic slice), with testify without it
+    and with matryer; the placement is seeded in the quick tier, the thorough tier runs the full product."""
+    rng = ctx.rng
+    by = {}
+    for c in sp.cfgs:
+        g = c["cfg"]
+        unroll = bool(c["expect"]["predkey"]["unroll"]) if g["tmpl"] == "testify" else False
+        by.setdefault((g["tmpl"], unroll, bool(c["expect"]["inpkg"])), []).append(c)
+    full = [("testify", True, True), ("testify", True, False), ("testify", False, True), ("testify", False, False),
+            ("matryer", False, True), ("matryer", False, False)]
+    out = []
+    for pid in vpids:
+        prog = sp.progs[pid]["prog"]
+        if tier == "thorough":
+            slots = full
+        else:
+            slots = [("testify", True, rng.random() < 0.5), ("testify", False, rng.random() < 0.5), ("matryer", False, rng.random() < 0.5)]
+        for key in slots:
+            pool = rng.sample(by[key], min(40, len(by[key])))
+            pool = [c for c in pool if prefer(c, rng, prog)] or pool
+            out.append((pid, rng.choice(pool)))
+    return out
+
+
 def run_world(ctx, gm, world, cases, traces):
     entries = {cw.ekey(cs): (cs.cid, cw.mockery_entry(cs)) for cs in cases}
     res = cw.run_chunks_traced(ctx, world, entries, "m", traces, chunk=60, par=4)
@@ -91,10 +124,15 @@ def run(ctx):
         cfg = c["cfg"]
         if cfg["tmpl"] == "matryer" and prog["fam"] == "generic" and c["expect"]["inpkg"]:
             return not c["expect"]["predkey"]["skipensure"]
+        if cfg["tmpl"] == "matryer" and prog["fam"] == "variadic":
+            # the ensure line is the generic family's subject; here its known defect (N15) would be the first error and hide the methods
+            return bool(c["expect"]["predkey"]["skipensure"])
         if cfg["tmpl"] == "matryer" and not c["expect"]["inpkg"]:
             return cfg["skipensure"] == (rng.random() < 0.67)
         return True
-    pairs, ncov = cw.assign_configs(ctx, sp, pids, slots_for(ctx, tier), prefer)
+    vpids = [p for p in pids if sp.progs[p]["prog"]["fam"] == "variadic"]
+    pairs, ncov = cw.assign_configs(ctx, sp, [p for p in pids if p not in set(vpids)], slots_for(ctx, tier), prefer)
+    pairs += variadic_pairs(ctx, sp, vpids, tier, prefer)
     replay = cw.replay_pairs(ctx, sp)
     if replay:
         pairs, pids = replay, [replay[0][0]]
@@ -107,7 +145,7 @@ def run(ctx):
     fams = {cs.prog["fam"] for cs in allcases} if not replay else set()
     if replay:
         return run_cases(ctx, sp, worlds, allcases, pids, 0, 0, 0)
-    need = {"shape", "ident", "pkgs", "embed", "generic", "mname", "local", "unnamed", "multi", "ext"}
+    need = {"shape", "ident", "pkgs", "embed", "generic", "mname", "local", "unnamed", "multi", "ext", "variadic"}
     if not need <= fams:
         raise MachineryError("vacuous: families never executed: %s" % (need - fams))
     for dim, vals in (("fmt", {"goimports", "gofmt", "noop"}), ("place", set(cw.PLACEMENTS)), ("gomod", set(cw.GOMOD_SPELLINGS)),
@@ -115,6 +153,28 @@ def run(ctx):
         got = {cs.cfg[dim] for cs in allcases}
         if got != vals:
             raise MachineryError("vacuous: %s values never executed: %s" % (dim, vals - got))
+    # variadic element classes (Sig.tla VariadicElemClass, exported with the program) x forwarding branch of the templates
+    def va_classes(pred):
+        return {(v["class"], v["before"]) for cs in allcases if pred(cs) for v in sp.progs[cs.pid].get("variadics", [])}
+    enumerated = {(v["class"], v["before"]) for x in sp.progs.values() if x["prog"]["fam"] == "variadic" for v in x["variadics"]}
+    must = {"any", "empty-iface-lit", "alias-of-any", "defined-empty-iface", "nonempty-iface", "tparam-any", "tparam-comparable",
+            "tparam-union", "tparam-named", "tparam-iface", "basic", "named", "slice", "ptr", "func", "inst", "map", "chan", "struct"}
+    if not must <= {c_ for c_, _ in enumerated} or {b_ for _, b_ in enumerated} != {0, 1, 2}:
+        raise MachineryError("vacuous: variadic element classes / positions missing from the enumerated space: %s" %
+                             sorted(must - {c_ for c_, _ in enumerated}))
+    unrolled = va_classes(lambda cs: cs.cfg["tmpl"] == "testify" and cs.cexpect["predkey"]["unroll"])
+    if not enumerated <= unrolled:
+        raise MachineryError("vacuous: variadic element class x position never executed with testify and an effective "
+                             "unroll-variadic: %s" % sorted(enumerated - unrolled)[:6])
+    for what, pred in (("testify without unroll-variadic", lambda cs: cs.cfg["tmpl"] == "testify" and not cs.cexpect["predkey"]["unroll"]),
+                       ("matryer", lambda cs: cs.cfg["tmpl"] == "matryer")):
+        got = {c_ for c_, _ in va_classes(pred)}
+        if not must <= got:
+            raise MachineryError("vacuous: variadic element classes never executed with %s: %s" % (what, sorted(must - got)))
+    ctx.cov["variadic_class_x_position_unrolled"] = len(unrolled)
+    ctx.cov["variadic_cases"] = sum(1 for cs in allcases if cs.prog["fam"] == "variadic")
+    ctx.cov["variadic_unroll_spellings"] = sorted({cs.cfg["unroll"] + "/" + cs.cfg["ovr"] for cs in allcases
+                                                   if cs.prog["fam"] == "variadic" and cs.cfg["tmpl"] == "testify"})
     aliased = sum(1 for cs in allcases for p, q in cs.pred["imports"].items() if p != "SRC" and q != cw.PKGS[p][1])
     renamed = sum(1 for cs in allcases for m in cs.pred["methods"] for a, b in zip(m["origps"] + m["origrs"], m["ps"] + m["rs"]) if a not in ("", "_") and a != b)
     if aliased == 0 or renamed == 0:
